@@ -50,8 +50,9 @@ import (
 )
 
 type cfg struct {
-	name string
-	args []string // between the program name and the IDL path, without -o
+	name     string
+	args     []string // between the program name and the IDL path, without -o
+	diagOnly bool     // quick tier: baseline + the 7 diagonals only, on the annotated program only
 }
 
 type outcome struct {
@@ -150,27 +151,47 @@ func main() {
 		dps = append(dps, &dprog{p.Name, filepath.Join(dir, p.Files[0].Path), texts})
 	}
 	cfgs := []cfg{
-		{"go -r", []string{"-g", "go", "-r"}},
-		{"go", []string{"-g", "go"}},
-		{"go:with_reflection -r", []string{"-g", "go:with_reflection", "-r"}},
-		{"go:with_reflection,with_field_mask -r", []string{"-g", "go:with_reflection,with_field_mask", "-r"}},
-		{"go:gen_type_meta,reserve_comments -r", []string{"-g", "go:gen_type_meta,reserve_comments", "-r"}},
-		{"go:keep_unknown_fields,gen_deep_equal,frugal_tag -r", []string{"-g", "go:keep_unknown_fields,gen_deep_equal,frugal_tag", "-r"}},
-		{"go:template=slim -r", []string{"-g", "go:template=slim", "-r"}},
-		{"go:trim_idl -r", []string{"-g", "go:trim_idl", "-r"}},
-		{"fastgo -r", []string{"-g", "fastgo", "-r"}},
+		{"go -r", []string{"-g", "go", "-r"}, false},
+		{"go", []string{"-g", "go"}, false},
+		{"go:with_reflection -r", []string{"-g", "go:with_reflection", "-r"}, false},
+		{"go:with_reflection,with_field_mask -r", []string{"-g", "go:with_reflection,with_field_mask", "-r"}, false},
+		{"go:gen_type_meta,reserve_comments -r", []string{"-g", "go:gen_type_meta,reserve_comments", "-r"}, false},
+		{"go:keep_unknown_fields,gen_deep_equal,frugal_tag -r", []string{"-g", "go:keep_unknown_fields,gen_deep_equal,frugal_tag", "-r"}, false},
+		{"go:template=slim -r", []string{"-g", "go:template=slim", "-r"}, false},
+		{"go:trim_idl -r", []string{"-g", "go:trim_idl", "-r"}, false},
+		{"fastgo -r", []string{"-g", "fastgo", "-r"}, false},
 	}
 	if thorough {
 		cfgs = append(cfgs,
-			cfg{"go:template=raw_struct -r", []string{"-g", "go:template=raw_struct", "-r"}},
-			cfg{"go:use_option,gen_setter,json_enum_as_text -r", []string{"-g", "go:use_option,gen_setter,json_enum_as_text", "-r"}},
-			cfg{"go:naming_style=apache,with_reflection -r", []string{"-g", "go:naming_style=apache,with_reflection", "-r"}},
-			cfg{"go:streamx,thrift_streaming,no_processor -r", []string{"-g", "go:thrift_streaming,no_processor", "-r"}},
-			cfg{"go:enable_nested_struct,nil_safe,code_ref -r", []string{"-g", "go:enable_nested_struct,nil_safe,code_ref", "-r"}},
-			cfg{"fastgo:with_reflection -r", []string{"-g", "fastgo:with_reflection", "-r"}},
+			cfg{"go:template=raw_struct -r", []string{"-g", "go:template=raw_struct", "-r"}, false},
+			cfg{"go:use_option,gen_setter,json_enum_as_text -r", []string{"-g", "go:use_option,gen_setter,json_enum_as_text", "-r"}, false},
+			cfg{"go:naming_style=apache,with_reflection -r", []string{"-g", "go:naming_style=apache,with_reflection", "-r"}, false},
+			cfg{"go:streamx,thrift_streaming,no_processor -r", []string{"-g", "go:thrift_streaming,no_processor", "-r"}, false},
+			cfg{"go:enable_nested_struct,nil_safe,code_ref -r", []string{"-g", "go:enable_nested_struct,nil_safe,code_ref", "-r"}, false},
+			cfg{"fastgo:with_reflection -r", []string{"-g", "fastgo:with_reflection", "-r"}, false},
 		)
 	}
 
+	// every documented option on its own
+	opts, err := gen.DocumentedOptions()
+	if err != nil {
+		run.Fatal("%v", err)
+	}
+	have := map[string]bool{}
+	for _, c := range cfgs {
+		have[c.name] = true
+	}
+	for _, o := range opts {
+		l := gen.OptionAlone(o)
+		if l == nil {
+			continue
+		}
+		name := "go:" + strings.Join(l, ",") + " -r"
+		if !have[name] {
+			have[name] = true
+			cfgs = append(cfgs, cfg{name, []string{"-g", "go:" + strings.Join(l, ","), "-r"}, !thorough})
+		}
+	}
 	var mu sync.Mutex
 	caseN := 0
 	// one worker run; the output tree is hashed and removed
@@ -246,6 +267,9 @@ func main() {
 	var sampleIters []string
 	for _, dp := range dps {
 		for _, c := range cfgs {
+			if c.diagOnly && dp.name != "annotated-same-base-name" {
+				continue
+			}
 			key := dp.name + "|" + c.name
 			rp := map[string]any{"program": dp.name, "args": c.args, "files": dp.texts}
 			base := exec1(worker, dp, c, "-1,0,-1,0,0", 1, nil, true)
@@ -255,7 +279,9 @@ func main() {
 				outcomes["rejected"]++
 				continue
 			}
-			if len(base.files) == 0 || base.req == "" {
+			if len(base.files) == 0 && base.req != "" {
+				run.Note(fmt.Sprintf("%s: writes no file (only the plugin request is compared)", key))
+			} else if len(base.files) == 0 || base.req == "" {
 				run.Fatal("%s: baseline produced %d files, request recorded=%v", key, len(base.files), base.req != "")
 			}
 			run.Eval(key+"|baseline", true)
@@ -321,6 +347,9 @@ func main() {
 			}
 			mu.Unlock()
 			for _, pc := range siteOrder {
+				if c.diagOnly {
+					break
+				}
 				st := sites[pc]
 				starts := []int{1}
 				if thorough {
@@ -421,6 +450,9 @@ func main() {
 	}
 	for _, dp := range dps {
 		for _, c := range cfgs {
+			if c.diagOnly && dp.name != "annotated-same-base-name" {
+				continue
+			}
 			key := dp.name + "|" + c.name + "|stock"
 			var base *outcome
 			type r struct {
